@@ -398,6 +398,10 @@ func runStream(res *vh.Result, rp replay, verbose bool) string {
 	for i, op := range rp.Ops {
 		at := fmt.Sprintf("op#%d %s: ", i, op.Kind)
 		var term, obs string
+		if op.Kind != "req" && op.Kind != "reqfunc" {
+			// UpdatedAt() is a wall clock in nanoseconds: keep the order of events strict
+			time.Sleep(2 * time.Microsecond)
+		}
 		switch op.Kind {
 		case "req", "reqfunc":
 			hint := launch.RateLimitRuleHint{ClientID: cids[op.Cid]}
